@@ -37,7 +37,10 @@ SplitLigLike(s, rec) ==
       newLen == IF rec.name \in {"Coverage", "RangeRecord"} THEN n \div 2
                 ELSE IF rec.name = ItemTable(s.k) THEN rec.idx - 1
                 ELSE -2                                   \* newLen unbound: UnboundLocalError
-  IN IF newLen < 0 THEN Crash(s)                          \* (-1: range(-1, n) revisits the last key: KeyError)
+  IN IF rec.name \notin {"Coverage", "RangeRecord", ItemTable(s.k)} THEN Crash(s)   \* newLen unbound: UnboundLocalError
+     \* a cut that leaves one half empty makes no progress: the split is refused (fix 576f199; before it the code moved
+     \* everything, left an empty subtable behind and looped for ever on a subtable holding one oversized item)
+     ELSE IF newLen <= 0 \/ newLen >= n THEN NoSplit(s)
      ELSE LET keep == {s.nm[i] : i \in 1..Min2(newLen, n)}
           IN [ok |-> TRUE, crash |-> FALSE,
               old |-> [s EXCEPT !.it = SelectSeq(s.it, LAMBDA x : x \in keep), !.nm = Take(s.nm, newLen)],
